@@ -342,6 +342,21 @@ Theorem C17_src_search : forall (u : Z -> res num) t dir max_days,
   src_nearest nzero nltb u t dir max_days = search nzero nltb u dir (Z.to_nat max_days) t.
 Proof. exact (src_nearest_eq nzero nltb). Qed.
 
+(* constructor validation: FixedCalendar.__init__ accepts exactly what mk_fixed accepts; the two static checks of
+   WeeklyCalendar reject start > end and weekdays outside 0-6 *)
+Theorem C17_src_fixed_init : forall u st en,
+  src_fixed_init nzero nltb u st en
+  = match mk_fixed nzero nltb u st en with Ok _ => Ok tt | Err => Err | Crash k => Crash k end.
+Proof. exact (src_fixed_init_eq nzero nltb). Qed.
+
+Theorem C17_src_check_start_end : forall st en,
+  src_check_start_end st en = if bad_interval st en then Err else Ok tt.
+Proof. exact src_check_start_end_eq. Qed.
+
+Theorem C17_src_check_working_days : forall days,
+  src_check_working_days (Some days) = if forallb weekday_ok days then Ok tt else Err.
+Proof. exact src_check_working_days_eq. Qed.
+
 End C17_src.
 
 Print Assumptions C17_sum.
@@ -399,3 +414,6 @@ Print Assumptions C17_src_weekly.
 Print Assumptions C17_src_dated.
 Print Assumptions C17_src_resource_units.
 Print Assumptions C17_src_search.
+Print Assumptions C17_src_fixed_init.
+Print Assumptions C17_src_check_start_end.
+Print Assumptions C17_src_check_working_days.
